@@ -545,6 +545,21 @@ def _flatten(ex, alts):
 
 # ------------------------------------------------------------------ misc std
 
+def _deep_repr(ex, st, v, depth=5):
+    """label of a formatted value: references are followed so that the label names the displayed objects"""
+    try:
+        while isinstance(v, Ref) and depth > 0:
+            v = ex.read(st, v.fid, v.place)
+            depth -= 1
+    except Exception:
+        return repr(v)
+    if isinstance(v, Opaque):
+        return v.what if v.ty == 'fmt::Arguments' else repr(v)
+    if isinstance(v, Agg) and depth > 0 and v.kind in ('array', 'tuple', 'struct') and len(v.fields) <= 6:
+        return '[' + ' '.join(_deep_repr(ex, st, x, depth - 1) for x in v.fields) + ']'
+    return repr(v)
+
+
 def m_misc(ex, st, callee, A):
     if re.search(r'(^|::)panicking::(panic\w*|assert_failed\w*|unreachable_display)$', callee) or callee.endswith('::panic_fmt') or callee in ('panic_fmt', 'panic', 'panic_display', 'unreachable_display', 'assert_failed') \
             or 'begin_panic' in callee or callee.endswith('::panic_display') or re.search(r'rt::panic_\w+$', callee) \
@@ -553,7 +568,7 @@ def m_misc(ex, st, callee, A):
         return Diverge(f'{callee.split("::")[-1]}: {msg}')
     if re.match(r"^(?:std::fmt::|core::fmt::)?Arguments::<'_>::\w+", callee) or callee.startswith('core::fmt::rt::') \
             or re.match(r'^(?:std|core)::fmt::rt::Argument', callee):
-        return Opaque('fmt::Arguments', 'fmt:' + ' '.join(repr(a) for a in A)[:120])
+        return Opaque('fmt::Arguments', 'fmt:' + ' '.join(_deep_repr(ex, st, a) for a in A)[:400])
     if re.match(r'^<(.*) as Into<(.*)>>::into$', callee):
         m = re.match(r'^<(.*) as Into<(.*)>>::into$', callee)
         s, t = m.group(1).strip(), m.group(2).strip()
